@@ -81,6 +81,16 @@ add("C07",
     "Exact lattice model trusted; meshes with subregions at scales 1e-9..1; cell values are unique in component 0 so a "
     "misplaced cell always shows.")
 
+add("C08",
+    "Hypothesis-generated operation programs against a Boolean mask model; mask image under cell-mapping operations read "
+    "from a companion field whose data encode the mask; in-place flip of the result mask as ownership probe",
+    "Generated-input search over programs of 1-4 unary / binary / cell-mapping operations (incl. HDF5 and VTK round "
+    "trips) on masked fields: after every step the result's validity must be a Boolean array of the mesh shape equal "
+    "to the model (same / AND / image of the mask under the operation's own data map), operands' masks must be byte-"
+    "identical, and flipping the result's mask in place must not reach an operand. Setter forms are compared with a model.",
+    "The data transformation of cell-mapping operations is taken from C07/C12; selections use interior coordinates "
+    "(no face ties); 'norm' threshold probed a decade away from 1e-8.")
+
 PENDING = {}
 
 
